@@ -1,8 +1,78 @@
-import Magog.Model.Eval
-import Magog.Model.Time
+import Magog.Lemmas.SearchIter
+import Magog.Lemmas.SearchExamples
 
-/-! Property C10 — theorems (see DESIGN §5). -/
+/-! Property C10 — the move played is the first move of the last principal variation printed; printed
+    principal variations are never empty.
+
+Partial-correctness statements about `Model.iterDeep` (hypothesis `iterDeep … = .ok s`), valid for every `env`,
+killer table and initial `rows` / `len0`. `s.out` lists the output events most recent first. -/
 
 namespace Magog.Props.C10
+open Magog Magog.Model
+
+/-- `bestmove m` is immediately preceded by an `info … pv` line whose pv is non-empty, starts with `m`, and is the
+    stored best line `s.cand`: "bestmove equals the first move of the last principal variation printed before it". -/
+theorem C10_bestmove {env : Env} {qfuel : Nat} {p : Position} {maxDepth : Nat} {killers : Killers}
+    {rows : Array (Array Move)} {len0 : Nat} {s : SS} {m : Move} {rest : List Event}
+    (h : iterDeep env qfuel p maxDepth killers rows len0 = .ok s) (hout : s.out = .bestmove m :: rest) :
+    ∃ best done nodes pv rest', rest = .infoPv best done nodes pv :: rest' ∧
+      pv.head? = some m ∧ pv ≠ [] ∧ pv = s.cand := by
+  obtain ⟨score, one, l, s1, added1, _, _, _, hc⟩ := iterDeep_shape h
+  rcases hc with ⟨_, hout', _⟩ | ⟨_, best, done, nodes, added, m', tl, hcand, hout', _, _⟩
+  · rw [hout'] at hout; cases hout
+  · rw [hout'] at hout
+    simp only [List.cons.injEq, Event.bestmove.injEq] at hout
+    obtain ⟨rfl, rfl⟩ := hout
+    exact ⟨best, done, nodes, m' :: tl, _, rfl, rfl, by simp, hcand.symm⟩
+
+open SearchExamples in
+/-- non-vacuity: a concrete run (Ka1 vs Kh8, `go depth 2`, kernel-evaluated) ends with `bestmove m` -/
+example : ∃ s m rest, iterDeep quietEnv 3 kkPos 2 Killers.empty (newRows 6) 6 = .ok s ∧
+    s.out = .bestmove m :: rest := by
+  obtain ⟨s, m, _, _, _, _, hs, ho, _⟩ := endsWithBest_elim quiet_run2
+  exact ⟨s, m, _, hs, ho⟩
+
+/-- Every principal variation printed during a search — by an `info score … pv` line (`infoPv`) or by an
+    `info depth … pv` line (`infoDepth`) — is non-empty (the model panics, like the Go code, when it would have to
+    print an empty one). -/
+theorem C10_pv_nonempty {env : Env} {qfuel : Nat} {p : Position} {maxDepth : Nat} {killers : Killers}
+    {rows : Array (Array Move)} {len0 : Nat} {s : SS}
+    (h : iterDeep env qfuel p maxDepth killers rows len0 = .ok s) :
+    (∀ score depth nodes pv, Event.infoPv score depth nodes pv ∈ s.out → pv ≠ []) ∧
+    (∀ depth score nodes pv, Event.infoDepth depth score nodes pv ∈ s.out → pv ≠ []) := by
+  have key : ∀ e ∈ s.out, e.pvOk = true := by
+    obtain ⟨score, one, l, s1, added1, _, _, p1, hc⟩ := iterDeep_shape h
+    rcases hc with ⟨_, hout, _⟩ | ⟨_, best, done, nodes, added, m, tl, _, hout, p2, _⟩
+    · intro e he
+      rw [hout] at he
+      rcases List.mem_cons.1 he with rfl | he
+      · rfl
+      rcases List.mem_cons.1 he with rfl | he
+      · rfl
+      · exact (p1 e he).2
+    · intro e he
+      rw [hout] at he
+      rcases List.mem_cons.1 he with rfl | he
+      · rfl
+      rcases List.mem_cons.1 he with rfl | he
+      · rfl
+      rcases List.mem_append.1 he with he | he
+      · exact (p2 e he).2
+      · exact (p1 e he).2
+  constructor
+  · intro score depth nodes pv he hpv
+    have := key _ he
+    subst hpv
+    simp [Event.pvOk] at this
+  · intro depth score nodes pv he hpv
+    have := key _ he
+    subst hpv
+    simp [Event.pvOk] at this
+
+open SearchExamples in
+/-- non-vacuity: the concrete run above succeeds -/
+example : ∃ s, iterDeep quietEnv 3 kkPos 2 Killers.empty (newRows 6) 6 = .ok s := by
+  obtain ⟨s, _, _, _, _, _, hs, _, _⟩ := endsWithBest_elim quiet_run2
+  exact ⟨s, hs⟩
 
 end Magog.Props.C10
